@@ -575,3 +575,306 @@ Example C15_build_after_nextest_loses :
   MEO.user_before_nextest [MEO.SrcNextest; MEO.SrcUser] = false /\
   MEO.winner 7 [(7, MEO.SrcNextest); (7, MEO.SrcUser)] = Some MEO.SrcUser.
 Proof. exact PEO.build_after_nextest_loses. Qed.
+
+(* ==== fifth round (branch agent-glue5): profile inheritance, the libtest-json report's stored output, the leak
+   verdict's path, exec_run's early return, SetupScriptExecuteData::apply ==== *)
+
+(* ---- profile inheritance (C06 / C07) *)
+
+(* C06 / C07 "profile-level values come from the selected profile, falling back to the default profile":
+   NextestConfigImpl::get_profile, regenerated from the source, for every configuration (its other profile tables, a map
+   from names to tables) and every profile name: no table besides the default profile for the name "default" ONLY; the
+   table of that name for every other known name (default-miri is a table like every other); an error for an unknown
+   name. Answering "no table" for every built-in name falsifies it. *)
+Theorem C06_source_get_profile :
+  forall cfg name,
+    selection_of_result (G.NextestConfigImpl_get_profile cfg name) =
+    MPC.custom_table (bytes_of_string name) (tables_to_model (G.NextestConfigImpl_other_profiles cfg)).
+Proof. exact gen_get_profile_is_model. Qed.
+Print Assumptions C06_source_get_profile.
+
+(* EvaluatableProfile::retries(), regenerated from the source (`self.custom_profile`: the table get_profile selected;
+   `self.default_profile.retries`: the default profile's value): the table's value if it sets one, otherwise the default
+   profile's -- for every table, every value. *)
+Theorem C06_source_profile_accessor_retries :
+  forall custom dflt, G.profile_accessor_retries custom dflt = MPC.resolve G.CustomProfileImpl_retries custom dflt.
+Proof. exact gen_profile_accessor_retries_is_model. Qed.
+Print Assumptions C06_source_profile_accessor_retries.
+
+(* EvaluatableProfile::slow_timeout(), regenerated from the source (`self.custom_profile`: the table get_profile selected;
+   `self.default_profile.slow_timeout`: the default profile's value): the table's value if it sets one, otherwise the default
+   profile's -- for every table, every value. *)
+Theorem C06_source_profile_accessor_slow_timeout :
+  forall custom dflt, G.profile_accessor_slow_timeout custom dflt = MPC.resolve G.CustomProfileImpl_slow_timeout custom dflt.
+Proof. exact gen_profile_accessor_slow_timeout_is_model. Qed.
+Print Assumptions C06_source_profile_accessor_slow_timeout.
+
+(* EvaluatableProfile::leak_timeout(), regenerated from the source (`self.custom_profile`: the table get_profile selected;
+   `self.default_profile.leak_timeout`: the default profile's value): the table's value if it sets one, otherwise the default
+   profile's -- for every table, every value. *)
+Theorem C06_source_profile_accessor_leak_timeout :
+  forall custom dflt, G.profile_accessor_leak_timeout custom dflt = MPC.resolve G.CustomProfileImpl_leak_timeout custom dflt.
+Proof. exact gen_profile_accessor_leak_timeout_is_model. Qed.
+Print Assumptions C06_source_profile_accessor_leak_timeout.
+
+(* EvaluatableProfile::threads_required(), regenerated from the source (`self.custom_profile`: the table get_profile selected;
+   `self.default_profile.threads_required`: the default profile's value): the table's value if it sets one, otherwise the default
+   profile's -- for every table, every value. *)
+Theorem C06_source_profile_accessor_threads_required :
+  forall custom dflt, G.profile_accessor_threads_required custom dflt = MPC.resolve G.CustomProfileImpl_threads_required custom dflt.
+Proof. exact gen_profile_accessor_threads_required_is_model. Qed.
+Print Assumptions C06_source_profile_accessor_threads_required.
+
+(* EvaluatableProfile::test_threads(), regenerated from the source (`self.custom_profile`: the table get_profile selected;
+   `self.default_profile.test_threads`: the default profile's value): the table's value if it sets one, otherwise the default
+   profile's -- for every table, every value. *)
+Theorem C06_source_profile_accessor_test_threads :
+  forall custom dflt, G.profile_accessor_test_threads custom dflt = MPC.resolve G.CustomProfileImpl_test_threads custom dflt.
+Proof. exact gen_profile_accessor_test_threads_is_model. Qed.
+Print Assumptions C06_source_profile_accessor_test_threads.
+
+(* EvaluatableProfile::success_output(), regenerated from the source (`self.custom_profile`: the table get_profile selected;
+   `self.default_profile.success_output`: the default profile's value): the table's value if it sets one, otherwise the default
+   profile's -- for every table, every value. *)
+Theorem C06_source_profile_accessor_success_output :
+  forall custom dflt, G.profile_accessor_success_output custom dflt = MPC.resolve G.CustomProfileImpl_success_output custom dflt.
+Proof. exact gen_profile_accessor_success_output_is_model. Qed.
+Print Assumptions C06_source_profile_accessor_success_output.
+
+(* EvaluatableProfile::failure_output(), regenerated from the source (`self.custom_profile`: the table get_profile selected;
+   `self.default_profile.failure_output`: the default profile's value): the table's value if it sets one, otherwise the default
+   profile's -- for every table, every value. *)
+Theorem C06_source_profile_accessor_failure_output :
+  forall custom dflt, G.profile_accessor_failure_output custom dflt = MPC.resolve G.CustomProfileImpl_failure_output custom dflt.
+Proof. exact gen_profile_accessor_failure_output_is_model. Qed.
+Print Assumptions C06_source_profile_accessor_failure_output.
+
+(* C07 "the retry policy of the selected profile": the two regenerated ends together (what get_profile selects is what
+   EvaluatableProfile::retries reads as `self.custom_profile`; the hand-over through EarlyProfile's field is not
+   translated) are the model's [effective] value, and therefore: a retry policy set at the level of the selected
+   profile wins over the default profile's for EVERY profile name other than "default", built-in names included. *)
+Theorem C07_source_profile_retries :
+  forall cfg name dflt,
+    gen_profile_value G.profile_accessor_retries cfg name dflt =
+    MPC.effective G.CustomProfileImpl_retries (bytes_of_string name)
+      (tables_to_model (G.NextestConfigImpl_other_profiles cfg)) dflt.
+Proof. exact gen_profile_retries_is_model. Qed.
+Print Assumptions C07_source_profile_retries.
+
+Theorem C07_selected_wins_source_profile_retries :
+  forall cfg name p v dflt,
+    bytes_of_string name <> MPC.DEFAULT_NAME ->
+    MPC.lookup (bytes_of_string name) (tables_to_model (G.NextestConfigImpl_other_profiles cfg)) = Some p ->
+    G.CustomProfileImpl_retries p = Some v ->
+    gen_profile_value G.profile_accessor_retries cfg name dflt = Some v.
+Proof. exact gen_profile_retries_selected_wins. Qed.
+Print Assumptions C07_selected_wins_source_profile_retries.
+
+(* the model's facts, from the property texts: for every setting (polymorphic in the table, the field and the value) *)
+Theorem C06_selected_profile_value_wins :
+  forall (P V : Type) (field : P -> option V) name tables p v dflt,
+    name <> MPC.DEFAULT_NAME -> MPC.lookup name tables = Some p -> field p = Some v ->
+    MPC.effective field name tables dflt = Some v.
+Proof. exact PPC.selected_value_wins. Qed.
+Print Assumptions C06_selected_profile_value_wins.
+
+Theorem C06_default_miri_profile_value_wins :
+  forall (P V : Type) (field : P -> option V) tables p v dflt,
+    MPC.lookup MPC.DEFAULT_MIRI_NAME tables = Some p -> field p = Some v ->
+    MPC.effective field MPC.DEFAULT_MIRI_NAME tables dflt = Some v.
+Proof. exact PPC.default_miri_value_wins. Qed.
+Print Assumptions C06_default_miri_profile_value_wins.
+
+Theorem C06_unset_profile_value_falls_back :
+  forall (P V : Type) (field : P -> option V) name tables p dflt,
+    name <> MPC.DEFAULT_NAME -> MPC.lookup name tables = Some p -> field p = None ->
+    MPC.effective field name tables dflt = Some dflt.
+Proof. exact PPC.unset_value_falls_back. Qed.
+Print Assumptions C06_unset_profile_value_falls_back.
+
+Theorem C06_unknown_profile_is_error :
+  forall (P V : Type) (field : P -> option V) name tables dflt,
+    name <> MPC.DEFAULT_NAME -> MPC.lookup name tables = None -> MPC.effective field name tables dflt = None.
+Proof. exact PPC.unknown_profile_is_error. Qed.
+Print Assumptions C06_unknown_profile_is_error.
+
+(* non-vacuity: a configuration with a [profile.default-miri] table that sets retries = 5, default profile 0 *)
+Module ProfileWitness.
+  Import Strings.String.
+  Definition table : G.CustomProfileImpl := G.mk_CustomProfileImpl (Some 5) None None None None None None.
+  Definition cfg : G.NextestConfigImpl := G.mk_NextestConfigImpl [("default-miri"%string, table)].
+  Example miri : gen_profile_value G.profile_accessor_retries cfg "default-miri" 0 = Some 5.
+  Proof. vm_compute. reflexivity. Qed.
+  Example dflt : gen_profile_value G.profile_accessor_retries cfg "default" 0 = Some 0.
+  Proof. vm_compute. reflexivity. Qed.
+  Example unknown : gen_profile_value G.profile_accessor_retries cfg "ci" 0 = None.
+  Proof. vm_compute. reflexivity. Qed.
+  Example slow_falls_back : G.profile_accessor_slow_timeout (Some table) 60 = 60.
+  Proof. vm_compute. reflexivity. Qed.
+End ProfileWitness.
+
+(* ---- the libtest-json report's stored output (C16) *)
+
+(* C16 "what the test wrote is what is reported", libtest-json report: the predicate of the take_while in
+   strip_human_stdout_or_combined, regenerated from the source, for every line and every test name: a line is kept unless
+   it is EXACTLY `test <name> ... FAILED` for this test's name. Matching the name as a prefix (so that
+   `test <name> - should panic ... FAILED`, or the status line of a test whose name begins with this one, ends the text)
+   falsifies it. *)
+Theorem C16_source_libtest_closing_line :
+  forall line name,
+    G.libtest_closing_line line name = negb (MLR.closing_line (bytes_of_string name) (bytes_of_string line)).
+Proof. exact gen_libtest_closing_line_is_model. Qed.
+Print Assumptions C16_source_libtest_closing_line.
+
+(* ... and the function as a whole (the output seen through "contains the header followed by a newline", its lines, its
+   text): the pieces written to the report, in order, are the model's [stored]: for the standard harness the lines after
+   the header up to this test's exact status line, each written with the format "{}\n" (followed by an escaped newline);
+   otherwise the whole output, written with "{}". The text that is probed for is the header line followed by a newline. *)
+Theorem C16_source_libtest_report :
+  forall out name,
+    map bytes_of_string (G.libtest_report out name) =
+    MLR.stored (bytes_of_string name) (G.LibtestOutput_buf_contains_str out)
+               (map bytes_of_string (G.LibtestOutput_lines out)) (bytes_of_string (G.LibtestOutput_as_str_lossy out)) /\
+    G.libtest_report_formats out name =
+    (if G.LibtestOutput_buf_contains_str out then repeat LibtestFmt.line_format (length (G.libtest_report out name))
+     else [LibtestFmt.whole_format]) /\
+    bytes_of_string G.libtest_header_probe = (MLR.HEADER ++ [10])%list.
+Proof. exact gen_libtest_report_is_model. Qed.
+Print Assumptions C16_source_libtest_report.
+
+(* the model's facts, from the property text: no line other than the exact closing line ends the stored text ... *)
+Theorem C16_libtest_only_exact_closing_line_ends :
+  forall name ls, (forall l, In l ls -> l <> MLR.closing_text name) -> MLR.until_closing name ls = ls.
+Proof. exact PLR.until_closing_keeps_all. Qed.
+Print Assumptions C16_libtest_only_exact_closing_line_ends.
+
+(* ... in particular not the status line of a longer name (`<name> - should panic`, `<name>_more`) or of another test *)
+Theorem C16_libtest_longer_name_is_not_closing :
+  forall name extra, extra <> [] -> MLR.closing_line name (MLR.closing_text (name ++ extra)) = false.
+Proof. exact PLR.longer_name_is_not_closing. Qed.
+Print Assumptions C16_libtest_longer_name_is_not_closing.
+
+Theorem C16_libtest_other_name_is_not_closing :
+  forall name other, other <> name -> MLR.closing_line name (MLR.closing_text other) = false.
+Proof. exact PLR.other_name_is_not_closing. Qed.
+Print Assumptions C16_libtest_other_name_is_not_closing.
+
+(* ... and every line the test wrote between the header and its closing line is stored, in order, and nothing else *)
+Theorem C16_libtest_lines_between_are_stored :
+  forall name pre body post,
+    (forall l, In l pre -> l <> MLR.HEADER) ->
+    (forall l, In l body -> l <> MLR.closing_text name) ->
+    MLR.report_lines name (pre ++ MLR.HEADER :: body ++ MLR.closing_text name :: post) = body.
+Proof. exact PLR.report_lines_between. Qed.
+Print Assumptions C16_libtest_lines_between_are_stored.
+
+Theorem C16_libtest_unclosed_output_is_stored :
+  forall name pre body,
+    (forall l, In l pre -> l <> MLR.HEADER) ->
+    (forall l, In l body -> l <> MLR.closing_text name) ->
+    MLR.report_lines name (pre ++ MLR.HEADER :: body) = body.
+Proof. exact PLR.report_lines_unclosed. Qed.
+Print Assumptions C16_libtest_unclosed_output_is_stored.
+
+(* non-vacuity, on the generated function: a should-panic test `t` whose output contains libtest's own
+   `test t - should panic ... FAILED` line inside the frame: that line is stored, the exact status line ends the text *)
+Module LibtestWitness.
+  Import Strings.String.
+  Local Open Scope string_scope.
+  Definition out : G.LibtestOutput :=
+    G.mk_LibtestOutput true
+      [""; "running 1 test"; "hello"; "test t - should panic ... FAILED"; "test tt ... FAILED"; "more"; "test t ... FAILED"; "failures:"]
+      "".
+  Example stored : G.libtest_report out "t" = ["hello"; "test t - should panic ... FAILED"; "test tt ... FAILED"; "more"].
+  Proof. vm_compute. reflexivity. Qed.
+  Example custom_harness : G.libtest_report (G.mk_LibtestOutput false ["x"; "test t ... FAILED"] "whole") "t" = ["whole"].
+  Proof. vm_compute. reflexivity. Qed.
+End LibtestWitness.
+
+(* ---- what a setup script's environment map writes to a test's command (C18) *)
+
+(* C18 "the environment a setup script defines reaches the tests its rule matches": SetupScriptExecuteData::apply,
+   regenerated from the source (whether a script's rule matches the test is the input [enabled]): the (key, value)
+   pairs handed to Command::env, in order, are EVERY binding of EVERY script whose rule matches -- for all data, all
+   answers of the rules. Skipping a key the command already carries falsifies it (the fragment then no longer reads as a
+   plain list of writes). *)
+Theorem C18_source_apply_env_unconditional :
+  forall maps enabled,
+    G.apply_env maps enabled = MAE.env_writes enabled (env_maps_to_model maps) /\
+    (forall s m k v,
+        In (s, m) maps -> enabled s = true -> In (k, v) (G.SetupScriptEnvMap_env_map m) ->
+        In (k, v) (G.apply_env maps enabled)).
+Proof.
+  intros maps enabled. split; [apply gen_apply_env_is_model|].
+  intros s m k v. apply gen_apply_env_writes_every_binding.
+Qed.
+Print Assumptions C18_source_apply_env_unconditional.
+
+(* the model's facts: Model/Scripts.v [apply_env] -- the function C18_apply_env is stated on -- is every one of these
+   writes, in order, as an insertion into the command's variables ... *)
+Theorem C18_apply_env_is_every_write :
+  forall data t base,
+    MSc.apply_env data t base =
+    fold_left (fun e kv => MSc.env_insert (fst kv) (snd kv) e)
+              (MAE.env_writes (fun ss => MSc.ss_is_enabled ss t) data) base.
+Proof. exact PAE.apply_env_is_every_write. Qed.
+Print Assumptions C18_apply_env_is_every_write.
+
+(* ... hence a variable a matching script defines has the script's value whatever the command carried for it before *)
+Theorem C18_script_value_overrides_base :
+  forall data t k v base,
+    NextestModel.Proofs.Scripts.data_sorted data -> MSc.scripted_value data t k = Some v ->
+    MSc.env_lookup k (MSc.apply_env data t base) = Some v.
+Proof. exact PAE.script_value_overrides_base. Qed.
+Print Assumptions C18_script_value_overrides_base.
+
+(* ... and nothing of a script whose rule does not match is written *)
+Theorem C18_written_binding_has_enabled_script :
+  forall (S K V : Type) (enabled : S -> bool) (data : list (S * list (K * V))) kv,
+    In kv (MAE.env_writes enabled data) -> exists s m, In (s, m) data /\ enabled s = true /\ In kv m.
+Proof. exact PAE.written_binding_has_enabled_script. Qed.
+Print Assumptions C18_written_binding_has_enabled_script.
+
+(* non-vacuity: two scripts, the second one's rule does not match *)
+Example C18_source_apply_env_witness :
+  G.apply_env [(1, G.mk_SetupScriptEnvMap [(10, 11); (12, 13)]); (2, G.mk_SetupScriptEnvMap [(10, 99)])]
+              (fun s => N.eqb s 1) = [(10, 11); (12, 13)].
+Proof. vm_compute. reflexivity. Qed.
+
+(* ---- the path of the leak verdict (C03) *)
+
+(* C03 "LEAK iff exit code 0 and a handle still open at the leak timeout": in run_test_inner and in
+   run_setup_script_inner the `leaked` argument of the create_execution_result call the status is built from,
+   regenerated from the source with the `let`s it depends on, is the value detect_fd_leaks(..).await yielded -- that
+   value and nothing else (no further test of the process group, the exit status, ...), for both answers. *)
+Theorem C03_source_leak_verdict_unchanged :
+  forall detected,
+    G.run_test_leak_verdict detected = MLV.verdict_of_detection detected /\
+    G.run_script_leak_verdict detected = MLV.verdict_of_detection detected.
+Proof. exact gen_leak_verdict_unchanged. Qed.
+Print Assumptions C03_source_leak_verdict_unchanged.
+
+(* with Model/Classify.v (the function C03's theorems are about) applied to the regenerated argument: LEAK is reported
+   iff the attempt ran to exit code 0 with readable output and the detection said a handle was still open *)
+Theorem C03_leak_reported_iff_source_leak_verdict_unchanged :
+  forall sf to st errs detected,
+    MCl.attempt_result sf to st errs (G.run_test_leak_verdict detected) = MCl.Leak <->
+    sf = false /\ to = false /\ errs = false /\ st = MCl.Exited 0 /\ detected = true.
+Proof.
+  intros sf to st errs detected. destruct (gen_leak_verdict_unchanged detected) as [-> _].
+  exact (PLV.leak_reported_iff_detected sf to st errs detected).
+Qed.
+Print Assumptions C03_leak_reported_iff_source_leak_verdict_unchanged.
+
+Theorem C03_pass_reported_iff_not_detected :
+  forall sf to st errs detected,
+    MLV.attempt_result_detected sf to st errs detected = MCl.Pass <->
+    sf = false /\ to = false /\ errs = false /\ st = MCl.Exited 0 /\ detected = false.
+Proof. exact PLV.pass_reported_iff_not_detected. Qed.
+Print Assumptions C03_pass_reported_iff_not_detected.
+
+Theorem C03_fail_carries_detection :
+  forall sf to st errs detected sg lk,
+    MLV.attempt_result_detected sf to st errs detected = MCl.Fail sg lk -> lk = detected.
+Proof. exact PLV.fail_carries_detection. Qed.
+Print Assumptions C03_fail_carries_detection.
